@@ -5,6 +5,7 @@ package netw
 import (
 	"encoding/binary"
 	"fmt"
+	"os"
 	"strings"
 	"time"
 
@@ -63,7 +64,7 @@ func (w *World) Reset(promisc2 bool) {
 	for _, id := range []int{1, 2} {
 		lid, l := netsim.NewLink(65536+100, tcpip.LinkAddress([]byte{2, 0, 0, 0, 0, byte(id)}), 0)
 		w.L[id] = l
-		w.S.CreateNIC(tcpip.NICID(id), lid)
+		netsim.CreateNIC(w.S, tcpip.NICID(id), lid, l)
 		p := "0"
 		if id == 2 && promisc2 {
 			w.S.SetPromiscuousMode(2, true)
@@ -87,7 +88,7 @@ func (w *World) Reset(promisc2 bool) {
 	w.S.AddSubnet(2, header.IPv4ProtocolNumber, sn)
 	w.emit(fmt.Sprintf("subnet 2 4 %s %s", hx.Hex(sub), hx.Hex(m24)), "ok")
 	z4, z16 := make([]byte, 4), make([]byte, 16)
-	w.S.SetRouteTable([]tcpip.Route{
+	netsim.SetRoutes(w.S, []tcpip.Route{
 		{Destination: tcpip.Address([]byte{10, 0, 1, 0}), Mask: tcpip.AddressMask(m24), NIC: 2},
 		{Destination: tcpip.Address(z4), Mask: tcpip.AddressMask(z4), NIC: 1},
 		{Destination: tcpip.Address(z16), Mask: tcpip.AddressMask(z16), NIC: 1},
@@ -117,6 +118,7 @@ func (w *World) NewUDP(pr string) int {
 
 func (w *World) local(i int) (string, uint16) {
 	a, _ := w.eps[i].GetLocalAddress()
+	netsim.NotePort(w.S, a.Port)
 	return hx.Hex([]byte(a.Addr)), a.Port
 }
 
@@ -193,6 +195,7 @@ func (w *World) Write(i int, to []byte, port uint16, payload []byte) {
 	n, _, err := w.eps[i].Write(tcpip.SlicePayload(payload), opts)
 	res := ""
 	after, _ := w.eps[i].GetLocalAddress()
+	netsim.NotePort(w.S, after.Port)
 	learned := uint16(0)
 	if before.Port == 0 {
 		learned = after.Port
@@ -343,6 +346,9 @@ var localPorts = []uint16{7000, 7001}
 func Gen(r *hx.Run, focus string) {
 	w := &World{r: r, Focus: focus}
 	nh := r.Pick(400, 8000)
+	if v := os.Getenv("NETW_NH"); v != "" {
+		fmt.Sscan(v, &nh)
+	}
 	for h := 0; h < nh; h++ {
 		w.Reset(r.R.Intn(4) == 0)
 		nsock := 1 + r.R.Intn(5)
@@ -579,6 +585,9 @@ func (w *World) Echo6(nic int, src, dst, msg []byte, firstLen int, likely bool) 
 func GenEcho(r *hx.Run) {
 	w := &World{r: r, Focus: "C13"}
 	nh := r.Pick(60, 600)
+	if v := os.Getenv("NETW_NH"); v != "" {
+		fmt.Sscan(v, &nh)
+	}
 	for h := 0; h < nh; h++ {
 		w.Reset(false)
 		n := 5 + r.R.Intn(30)
